@@ -188,6 +188,28 @@ def p_unresolved(r, ctx, names):
     return dict(insert=["u_%d :: undefined_name" % r.randint(0, 9)])
 
 
+def p_unresolved_qualified(r, ctx, names):
+    """a name that the IMPORTED module does not have, written in the importing file: the error belongs to the file and
+    line where `ns.name` is written, not to the module that was searched"""
+    if not names.get("imports"):
+        return None
+    ns = r.choice(names["imports"])
+    n = r.randint(0, 9)
+    if ctx.startswith("inner"):
+        return dict(insert=["    " + r.choice(["uq_ := %s.missing_name_%d", "%s.missing_fn_%d(1)", "uq_ := 1 + %s.missing_name_%d",
+                                               "%s.missing_name_%d = 3"]) % (ns, n)])
+    return dict(insert=["uq_%d :: %s.missing_name" % (n, ns)])
+
+
+def p_unresolved_qualified_type(r, ctx, names):
+    if not names.get("imports"):
+        return None
+    ns = r.choice(names["imports"])
+    if ctx.startswith("inner"):
+        return dict(insert=["    uqt_: %s.NoSuchType = 1" % ns])
+    return dict(insert=["uqt_%d: %s.NoSuchType = 1" % (r.randint(0, 9), ns)])
+
+
 def p_unresolved_type(r, ctx, names):
     if ctx.startswith("inner"):
         return dict(insert=["    ut_: NoSuchType = 1"])
@@ -271,6 +293,8 @@ PLANTERS = {
     "syntax:missing-end": p_missing_end,
     "unresolved-name": p_unresolved,
     "unresolved-type": p_unresolved_type,
+    "unresolved-qualified-name": p_unresolved_qualified,
+    "unresolved-qualified-type": p_unresolved_qualified_type,
     "duplicate-global": p_duplicate,
     "duplicate-global-vs-std": p_duplicate_std,
     "assign-to-constant": p_assign_constant,
@@ -296,7 +320,8 @@ def plant(r, files, pos, kind, shape, uid):
     for i, l in enumerate(lines):
         if l.startswith("k_%s ::" % mod):
             k_line = i
-    names = {"mod": mod, "takes_int": "takes_int" if mod == "main" else "takes_int_%s" % mod, "k_line": k_line}
+    names = {"mod": mod, "takes_int": "takes_int" if mod == "main" else "takes_int_%s" % mod, "k_line": k_line,
+             "imports": [l.split()[1] for l in lines if l.startswith("use ") and len(l.split()) == 2]}
     p = PLANTERS[kind](r, ctx, names)
     if p is None:
         return None
